@@ -112,6 +112,10 @@ func runPeerSessionCustom(sim *core.Sim, pp PeerPlan, after time.Duration, remot
 }
 
 func runPeerSessionWith(sim *core.Sim, pp PeerPlan, opts peerOpts) *peerRun {
+	// a station has a call sign (a reduced plan may say otherwise)
+	if strings.TrimSpace(pp.Lib.Call) == "" || strings.ContainsAny(pp.Lib.Call, " \t\r\n|") {
+		pp.Lib.Call = "N0CALL"
+	}
 	hist := mbox.NewHistory(sim)
 	lib := newStation("L", pp.Lib, hist)
 	lib.h.NextSession()
